@@ -18,6 +18,8 @@ from .vals import (
 class OpsMixin:
     # ------------------------------------------------------------- decisions
     def decide(self, key, options=(True, False)):
+        for a, b in self.key_alias:
+            key = key.replace(a, b)
         return self.decisions.decide(key, options)
 
     def note(self, text):
